@@ -55,6 +55,12 @@ def gen_cases(tier, seed):
             dirs = ["a=%d/b=%s" % (int(rng.integers(0, 2)), ["x", "y"][int(rng.integers(0, 2))]) for _ in range(k)]
         else:
             dirs = [["x", "y", "z"][int(rng.integers(0, 3))] for _ in range(k)]
+        if layout in ("hive", "drill") and (i // 6) % 2 == 1:
+            # sibling directories whose names begin with the name of the first file's directory (a=1, a=10, a=11 / x, xy, xyz)
+            m = {"a=0": "a=1", "a=1": "a=10", "a=2": "a=11", "x": "x", "y": "xy", "z": "xyz"}
+            dirs = [m[d_] for d_ in dirs]
+            dirs[0] = "a=1" if layout == "hive" else "x"
+            base["prefix_named_dirs"] = len(set(dirs)) > 1
         for j, f in enumerate(files):
             f["rel"] = (dirs[j] + "/" if dirs[j] else "") + "f%02d.parquet" % j
         base["files"] = files
@@ -385,6 +391,8 @@ def run_case(case):
                         counters["partition_values_checked"] = counters.get("partition_values_checked", 0) + 1
             counters["cells_compared"] = counters.get("cells_compared", 0) + len(grids) * len(got.columns)
         counters["opens_compared"] = 1
+        if case.get("prefix_named_dirs"):
+            counters["opens_over_directories_named_with_a_common_prefix"] = 1
         if case.get("growing_vocabulary"):
             counters["growing_vocabulary_opens"] = 1
         counters["route:" + route] = 1
@@ -401,4 +409,4 @@ def run_case(case):
 def required(tier):
     return {"opens_compared": 120, "route:list": 15, "route:dir": 15, "route:glob": 15, "route:merge": 15, "route:merge_pf": 15,
             "footer_path:new": 30, "footer_path:legacy": 30, "mismatch_rejected": 20, "partition_values_checked": 100, "footer_lattice_points": 30,
-            "growing_vocabulary_opens": 20, "merge_with_root": 10, "piece_handles_rechecked": 40, "second_opens_from_derived_handles": 10, "mismatch_rejected:tz": 3, "mismatch_rejected:width": 3, "files_of_another_writer_in_the_set": 10}
+            "growing_vocabulary_opens": 20, "merge_with_root": 10, "piece_handles_rechecked": 40, "second_opens_from_derived_handles": 10, "mismatch_rejected:tz": 3, "mismatch_rejected:width": 3, "files_of_another_writer_in_the_set": 10, "opens_over_directories_named_with_a_common_prefix": 10}
